@@ -172,6 +172,11 @@ static void explore_stream(void) {
   }
   vf_cnt(VC_TRANS, trans);
   vf_cnt(VC_EVAL, states);
+  if (S.n >= 6 && (vf_cnt_get_local(K_STREAMS) & 0xffff) == 21) {
+    char hx[80];
+    vf_hex(hx, sizeof hx, S.b, S.n < 36 ? S.n : 36);
+    vf_sample("stream %s (%zu bytes, %zu heads%s): %" PRIu64 " client states, %" PRIu64 " transitions, all fragmentations deliver the reference events", hx, S.n, S.nheads, S.ends_bad ? " + reserved byte" : S.ends_partial ? ", truncated" : "", states, trans);
+  }
   if (!S.ends_bad && !S.ends_partial) {
     vf_cnt(K_TERMINAL, 1);
     if (!reached_end) vf_fail(NULL, "stream ending on an item boundary is not delivered completely: state (c=n, b=0) unreachable");
